@@ -28,18 +28,18 @@ Example D3_user_macro_named_Sm : no_panic (run_doc "xhtml" 0 ".#de Sm
 Proof. vm_compute. reflexivity. Qed.
 
 (* proved for every document of a sub-language, every world and every positive nesting fuel (text lines, .Bm/.Em/.Sm,
-   .P with or without title, display blocks .Bd/.Ed nested to any depth, headers .Ch/.Pt/.Sh/.Ss; XHTML fragment mode 0, standalone mode 1 and multi-file mode 2): the model
+   .P with or without title, display blocks .Bd/.Ed nested to any depth, headers .Ch/.Pt/.Sh/.Ss; XHTML fragment mode 0, standalone mode 1, multi-file mode 2 and EPUB mode 3): the model
    never records a panic - neither the scope stack's "no current block", nor BeginHeader's index out of range (the passes
    agree), nor running out of fuel.  Proofs/FragB.v, Proofs/FragH.v. *)
 Require FragH.
-Theorem C01_blocks_no_panic_partial : forall fuel md wd main bs, md = 0%nat \/ md = 1%nat \/ md = 2%nat -> Forall FragH.in_fragH bs ->
-  panicked (snd (compile (S fuel) (R "xhtml") md wd main bs)) = None.
-Proof. intros fuel md wd main bs Hm H. exact (proj1 (FragH.C02_headers_balanced_modes fuel md wd main bs Hm H)). Qed.
-Theorem C01_source_no_panic_partial : forall md wd main src bs, md = 0%nat \/ md = 1%nat \/ md = 2%nat -> assoc main (w_fs wd) = Some src -> parse src = (bs, None) ->
-  Forall FragH.in_fragH bs -> no_panic (compile_source (R "xhtml") md wd main) = true.
-Proof. intros md wd main src bs Hm Hs Hp H. unfold no_panic, compile_source, compile_source_c. rewrite Hs, Hp.
+Theorem C01_blocks_no_panic_partial : forall fuel f md wd main bs, f = R "xhtml" \/ f = R "epub" -> (md <= 3)%nat -> Forall FragH.in_fragH bs ->
+  panicked (snd (compile (S fuel) f md wd main bs)) = None.
+Proof. intros fuel f md wd main bs Hf Hm H. exact (proj1 (FragH.C02_headers_balanced_modes fuel f md wd main bs Hf Hm H)). Qed.
+Theorem C01_source_no_panic_partial : forall f md wd main src bs, f = R "xhtml" \/ f = R "epub" -> (md <= 3)%nat -> assoc main (w_fs wd) = Some src -> parse src = (bs, None) ->
+  Forall FragH.in_fragH bs -> no_panic (compile_source f md wd main) = true.
+Proof. intros f md wd main src bs Hf Hm Hs Hp H. unfold no_panic, compile_source, compile_source_c. rewrite Hs, Hp.
   change (nesting_fuel wd) with (S (63 + List.length (w_fs wd))).
-  rewrite (proj1 (FragH.C02_headers_balanced_modes _ md wd main bs Hm H)). reflexivity. Qed.
+  rewrite (proj1 (FragH.C02_headers_balanced_modes _ f md wd main bs Hf Hm H)). reflexivity. Qed.
 Print Assumptions C01_source_no_panic_partial.
 
 (* tie of the dispatcher to the source: the model dispatches exactly the names of frundis.DefaultExporterMacros
